@@ -1921,6 +1921,11 @@ func (comp *Compiler) makeDecimal64(
 			comp.error(node, errors.New("missing fraction-digits"))
 		}
 		base = schema.NewDecimal64(name, fd, nil, "", "", "", false)
+	} else if node.ChildByType(parse.NodeFractionDigits) != nil {
+		// The fraction digits are those of the decimal64 the type is
+		// derived from; only the range can be restricted
+		comp.error(node, errors.New(
+			"fraction-digits cannot be given for a type derived from decimal64"))
 	}
 
 	fd := base.Fd()
